@@ -396,11 +396,11 @@ with tr_or (o : OrC) : filt :=
 
 Fixpoint sz_atom (a : Atom) : nat :=
   match a with
-  | AtNot _ a' => S (sz_atom a')
+  | AtNot _ a' => S (S (sz_atom a'))
   | AtCall _ _ _ _ _ amore _ => S (S (length amore))
   | AtCmp s1 _ _ s2 => S (S (sz_sum s1 + sz_sum s2))
   | AtArith s => S (S (sz_sum s))
-  | AtParen _ e _ => S (S (sz_or e))
+  | AtParen _ e _ => S (S (S (S (sz_or e))))
   end
 with sz_and (x : AndC) : nat := match x with AndOne a => S (sz_atom a) | AndMore x' _ a => S (sz_and x' + sz_atom a) end
 with sz_or (o : OrC) : nat := match o with OrOne x => S (sz_and x) | OrMore o' _ x => S (sz_or o' + sz_and x) end.
@@ -430,6 +430,18 @@ Fixpoint wf_args (ms : list OMore) (following : str) : bool :=
   | m :: t => lay_okb (clay m) && wf_arg (om m) (pr_oms t ++ following) && wf_args t following
   end.
 
+(* inside parentheses the parser first tries an ARITHMETIC reading `( sum )`; `pure_*`: the boolean expression is a
+   single arithmetic atom (possibly parenthesised again), which that reading accepts; `hd_*`: its first atom is not a
+   function call (for which the failure of the arithmetic reading is not proved here) *)
+Fixpoint pure_atom (a : Atom) : bool :=
+  match a with AtArith _ => true | AtParen _ e _ => pure_or e | _ => false end
+with pure_and (x : AndC) : bool := match x with AndOne a => pure_atom a | AndMore _ _ _ => false end
+with pure_or (o : OrC) : bool := match o with OrOne x => pure_and x | OrMore _ _ _ => false end.
+Fixpoint hd_atom (a : Atom) : bool :=
+  match a with AtCall _ _ _ _ _ _ _ => false | AtParen _ e _ => hd_or e | _ => true end
+with hd_and (x : AndC) : bool := match x with AndOne a => hd_atom a | AndMore x' _ _ => hd_and x' end
+with hd_or (o : OrC) : bool := match o with OrOne x => hd_and x | OrMore o' _ _ => hd_or o' end.
+
 Fixpoint wf_atom (a : Atom) (following : str) : bool :=
   match a with
   | AtNot l a' => lay_okb l && wf_atom a' following
@@ -442,14 +454,14 @@ Fixpoint wf_atom (a : Atom) (following : str) : bool :=
       && kw_free_text fn_kws (sum_body s1 ++ lay_bytes ol ++ op ++ pr_sum s2 ++ following)
   | AtArith s =>
       wf_sum s following && negb (is_paren (sum_first s)) && kw_free_text fn_kws (sum_body s ++ following)
-  | AtParen _ _ _ => false
-  end.
-Fixpoint wf_and (x : AndC) (following : str) : bool :=
+  | AtParen l e r => lay_okb l && lay_okb r && hd_or e && wf_or e (lay_bytes r ++ 41 :: following)
+  end
+with wf_and (x : AndC) (following : str) : bool :=
   match x with
   | AndOne a => wf_atom a following
   | AndMore x' l a => lay_okb l && wf_and x' (lay_bytes l ++ 38 :: 38 :: pr_atom a ++ following) && wf_atom a following
-  end.
-Fixpoint wf_or (o : OrC) (following : str) : bool :=
+  end
+with wf_or (o : OrC) (following : str) : bool :=
   match o with
   | OrOne x => wf_and x following
   | OrMore o' l x => lay_okb l && wf_or o' (lay_bytes l ++ 124 :: 124 :: pr_and x ++ following) && wf_and x following
@@ -695,7 +707,7 @@ Lemma atom_body_facts : forall a f rest, wf_atom a f = true ->
   exists b t, atom_body a = b :: t /\ b <> 61 /\ b <> 38 /\ b <> 124 /\ b <> 41 /\ ~ starts_layout (atom_body a ++ rest) /\
               (match a with AtNot _ _ => b = 33 | _ => b <> 33 end).
 Proof.
-  intros a f rest H. destruct a as [l a'|kl fn kwtxt lp a1 amore rp|s1 ol op s2|s|l e r]; cbn [wf_atom atom_lay atom_body] in *; try discriminate.
+  intros a f rest H. destruct a as [l a'|kl fn kwtxt lp a1 amore rp|s1 ol op s2|s|l e r]; cbn [wf_atom atom_lay atom_body] in *.
   - apply andb_true_iff in H. destruct H as [Hl _]. split; [assumption|]. eexists _, _. split; [reflexivity|].
     repeat split; try lia. cbn [app]. apply ascii_head_not_layout; [lia|reflexivity|lia].
   - repeat (apply andb_true_iff in H; destruct H as [H ?]). split; [assumption|].
@@ -710,6 +722,8 @@ Proof.
   - repeat (apply andb_true_iff in H; destruct H as [H ?]). split; [exact (proj1 (proj1 (proj2 wf_first) _ _ H))|].
     destruct (sum_body_facts s _ rest H) as (b & t & Eb & H33 & H61 & H38 & H124 & H41 & _ & Hn).
     exists b, t. repeat split; assumption.
+  - repeat (apply andb_true_iff in H; destruct H as [H ?]). split; [assumption|]. eexists _, _. split; [reflexivity|].
+    repeat split; try lia. cbn [app]. apply ascii_head_not_layout; [lia|reflexivity|lia].
 Qed.
 
 Lemma atom_valid_mut :
@@ -717,7 +731,7 @@ Lemma atom_valid_mut :
   (forall x f, wf_and x f = true -> Valid (pr_and x)) /\
   (forall o f, wf_or o f = true -> Valid (pr_or o)).
 Proof.
-  apply bool_mutind; cbn [wf_atom wf_and wf_or pr_atom pr_and pr_or]; try discriminate.
+  apply bool_mutind; cbn [wf_atom wf_and wf_or pr_atom pr_and pr_or].
   - intros l a IH f H. apply andb_true_iff in H. destruct H. apply valid_app; [now apply lay_valid|].
     apply (valid_app [33]); [apply valid_ascii; repeat constructor; lia|eapply IH; eassumption].
   - intros kl fn kwtxt lp a1 amore rp f H. repeat (apply andb_true_iff in H; destruct H as [H ?]).
@@ -731,6 +745,9 @@ Proof.
     unfold cmp_opb in H4. apply valid_ascii.
     repeat (apply orb_true_iff in H4; destruct H4 as [H4|H4]); apply str_eqb_eq in H4; subst op; repeat constructor; lia.
   - intros s f H. repeat (apply andb_true_iff in H; destruct H as [H ?]). eapply (proj1 (proj2 arith_valid)); eassumption.
+  - intros l e IH r f H. repeat (apply andb_true_iff in H; destruct H as [H ?]).
+    apply valid_app; [now apply lay_valid|]. apply (valid_app [40]); [apply valid_ascii; repeat constructor; lia|].
+    apply valid_app; [eapply IH; eassumption|]. apply valid_app; [now apply lay_valid|apply valid_ascii; repeat constructor; lia].
   - intros a IH f H. eapply IH; eassumption.
   - intros x IHx l a IHa f H. repeat (apply andb_true_iff in H; destruct H as [H ?]).
     apply valid_app; [eapply IHx; eassumption|]. apply valid_app; [now apply lay_valid|].
